@@ -35,6 +35,7 @@ uint64_t verif_alloc_count(void) { return ir2c_alloc_count; }
 uint64_t verif_live_allocs(void) { return ir2c_live_allocs; }
 uint64_t verif_live_bytes(void) { return ir2c_live_bytes; }
 uint64_t verif_mutex_held(void) { return ir2c_mutex_held; }
+void verif_mutex_foreign(uint64_t on) { ir2c_mutex_foreign = on; }
 void verif_yield_arm(uint64_t k) { ir2c_yield_count = 0; ir2c_yield_at = k; ir2c_yield_enabled = 1; }
 void verif_yield_disarm(void) { ir2c_yield_enabled = 0; }
 uint64_t verif_yield_fired(void) { return ir2c_yield_at != 0 && ir2c_yield_count >= ir2c_yield_at; }
